@@ -5,6 +5,15 @@ use rand::Rng;
 use serde_json::{json, Value as J};
 use std::sync::Arc;
 
+/// user operators whose first character is neither a letter nor a character of a built-in symbolic operator
+pub fn register_odd() {
+    use expression_engine::*;
+    register_prefix_op("~", Arc::new(|v| Ok(v)));
+    register_postfix_op("@@", Arc::new(|v| Ok(v)));
+    register_infix_op("\u{2260}", 111, InfixOpType::CALC, InfixOpAssociativity::LEFT, Arc::new(|a, _| Ok(a)));
+    register_infix_op("a~", 111, InfixOpType::CALC, InfixOpAssociativity::LEFT, Arc::new(|a, _| Ok(a)));
+}
+
 pub fn register_extended() {
     use expression_engine::*;
     register_prefix_op("+++", Arc::new(|v| Ok(v)));
@@ -47,6 +56,9 @@ fn bool_text_ok(expected: &J, got: &J) -> bool {
 pub fn replay(args: &[String]) {
     silence_panics();
     let path = &args[0];
+    if arg_value(args, "--ops").as_deref() == Some("odd") {
+        register_odd();
+    }
     if arg_value(args, "--ops").as_deref() == Some("extended") {
         register_extended();
     }
@@ -238,6 +250,9 @@ pub fn record(args: &[String]) {
     let n = arg_u64(args, "--n", 1000);
     let maxlen = arg_u64(args, "--maxlen", 200) as usize;
     let path = arg_value(args, "--out");
+    if arg_value(args, "--ops").as_deref() == Some("odd") {
+        register_odd();
+    }
     if arg_value(args, "--ops").as_deref() == Some("extended") {
         register_extended();
     }
